@@ -424,6 +424,9 @@ def rule_l(ctx):
     # over from the old connection are not prepended to what arrives on a reused stream id (shared C17.c)
     from .c17 import rule_c as c17c
     c17c(ctx)
+    # only the sender task writes to the transport (shared C05.g)
+    from .c05 import rule_single_writer
+    rule_single_writer(ctx)
 
 
 def rule_g(ctx):
